@@ -183,10 +183,11 @@ fn replay_body(seed: u64, case: u64, lane: &str, tier: &str, shape: &Option<(usi
     })
 }
 
-fn do_case(rep: &mut Report, seed: u64, case: u64, cfg: &Cfg, tier: &str) {
+fn do_case(rep: &mut Report, seed: u64, case: u64, cfg: &Cfg, tier: &str, hard: Budget) {
     let lane = lane_of(cfg, case);
     let mut stats = Stats::new();
     stats.secondary_window = cfg.window;
+    stats.hard_stop = Some(hard);
     let mut hist = Value::Null;
     let mut shape = None;
     rep.eval();
@@ -223,7 +224,10 @@ fn do_case(rep: &mut Report, seed: u64, case: u64, cfg: &Cfg, tier: &str) {
                 rep.inconclusive(&format!("a step the statement allows was refused: {cause}"));
             }
             let refused_any = !out.cov.refused.is_empty();
-            if out.settled > 0 && refused_any && stats.outstanding_at_crash > 0 {
+            if stats.truncated {
+                rep.count("cases_truncated_by_budget", 1);
+            }
+            if out.settled > 0 && refused_any && stats.outstanding_at_crash > 0 && !stats.truncated {
                 rep.nontrivial(out.canon.as_bytes());
             }
             if rep.wants_sample() && out.settled > 0 && refused_any {
@@ -247,6 +251,13 @@ fn do_case(rep: &mut Report, seed: u64, case: u64, cfg: &Cfg, tier: &str) {
     }
 }
 
+fn budget_limit_s(args: &Args) -> f64 {
+    std::env::var("VERIF_BUDGET_S")
+        .ok()
+        .and_then(|v| v.parse::<f64>().ok())
+        .unwrap_or(args.by_tier(50.0, 660.0))
+}
+
 pub fn run(args: &Args) -> i32 {
     let mut rep = Report::new(args, "fault_enumeration", RULE);
     if let Some(path) = &args.replay {
@@ -256,7 +267,9 @@ pub fn run(args: &Args) -> i32 {
     if let Some(n) = std::env::var("VERIF_MAX_CASES").ok().and_then(|v| v.parse::<u64>().ok()) {
         cfg.max_cases = n;
     }
-    let budget = Budget::for_tier(args.tier, 55.0, 660.0);
+    let budget = Budget::new(budget_limit_s(args));
+    // enumeration inside a case stops a few seconds after the budget expired
+    let hard = Budget::new(budget_limit_s(args) + args.by_tier(6.0, 30.0));
     let seed = args.seed;
     let tier = args.tier.as_str();
     let jobs = args.jobs.max(1);
@@ -269,7 +282,7 @@ pub fn run(args: &Args) -> i32 {
     run_shards(&mut rep, jobs, jobs, |shard, rep| {
         let mut case = shard as u64;
         while !budget.expired() && case < cfg.max_cases {
-            do_case(rep, seed, case, &cfg, tier);
+            do_case(rep, seed, case, &cfg, tier, hard);
             if rep.violations() > 3 {
                 break;
             }
